@@ -135,6 +135,12 @@ Fixpoint picks {A} (l : list A) : list (A * list A) :=
 Definition Empty : cm := Choice [].
 Definition Eps : cm := Seq [].
 
+(* smart constructors: dead branches (the empty language) are pruned, so that the derivative of a
+   deterministic model stays small *)
+Definition is_empty (c : cm) : bool := match c with Choice [] => true | _ => false end.
+Definition mk_seq (a : cm) (r : list cm) : cm := if is_empty a then Empty else Seq (a :: r).
+Definition mk_choice (l : list cm) : cm := Choice (filter (fun c => negb (is_empty c)) l).
+
 Fixpoint deriv (a : name) (c : cm) : cm :=
   match c with
   | Elem q => if name_eqb q a then Eps else Empty
@@ -143,17 +149,17 @@ Fixpoint deriv (a : name) (c : cm) : cm :=
       (fix dseq (l : list cm) : cm :=
          match l with
          | [] => Empty
-         | c :: r => if nullable c then Choice [Seq (deriv a c :: r); dseq r] else Seq (deriv a c :: r)
+         | c :: r => if nullable c then mk_choice [mk_seq (deriv a c) r; dseq r] else mk_seq (deriv a c) r
          end) l
-  | Choice l => Choice (map (deriv a) l)
+  | Choice l => mk_choice (map (deriv a) l)
   | All l =>
-      (* d(All l) = U_i  d(l_i) . All (l minus i) ; written with an index-free traversal *)
+      (* d(All l) = U_i  d(l_i) . All (l minus i) *)
       (fix dall (pre l : list cm) : cm :=
          match l with
          | [] => Empty
-         | c :: r => Choice [Seq [deriv a c; All (rev pre ++ r)]; dall (c :: pre) r]
+         | c :: r => mk_choice [mk_seq (deriv a c) [All (rev pre ++ r)]; dall (c :: pre) r]
          end) [] l
-  | Occ mn mx c => if ezero mx then Empty else Seq [deriv a c; Occ (pred mn) (epred mx) c]
+  | Occ mn mx c => if ezero mx then Empty else mk_seq (deriv a c) [Occ (pred mn) (epred mx) c]
   end.
 
 Fixpoint matches (c : cm) (w : list name) : bool :=
